@@ -1,5 +1,6 @@
 import NiflyVerif.Mesh.Partition
 import NiflyVerif.Util.IndexLemmas
+import NiflyVerif.Props.C09
 /-!
 # C10 — skin partitions cover the shape's triangles exactly once
 -/
@@ -106,5 +107,145 @@ differential run) -/
 example : trueFromMapped [2, 5, 7, 9] (mappedFromTrue [2, 5, 7, 9] [⟨5, 9, 2⟩, ⟨7, 5, 9⟩]) = [⟨2, 5, 9⟩, ⟨5, 9, 7⟩] := by decide
 
 example : trueFromTriParts 2 [⟨0, 1, 2⟩, ⟨2, 3, 4⟩, ⟨4, 5, 6⟩, ⟨6, 7, 8⟩] [1, -1, 0, 1] = [[⟨4, 5, 6⟩], [⟨0, 1, 2⟩, ⟨6, 7, 8⟩]] := by decide
+
+/-! ### mapped ↔ true triangles -/
+
+def triMap (f : Nat → Nat) (t : Tri) : Tri := ⟨f t.p1, f t.p2, f t.p3⟩
+
+/-- `rot` only compares corners, so it commutes with any map that preserves and reflects `<` on the corners -/
+theorem rot_triMap (f : Nat → Nat) (t : Tri)
+    (h : ∀ a b, (a = t.p1 ∨ a = t.p2 ∨ a = t.p3) → (b = t.p1 ∨ b = t.p2 ∨ b = t.p3) → (f a < f b ↔ a < b)) :
+    rot (triMap f t) = triMap f (rot t) := by
+  unfold rot triMap
+  simp only
+  have h21 := h t.p2 t.p1 (by simp) (by simp)
+  have h23 := h t.p2 t.p3 (by simp) (by simp)
+  have h31 := h t.p3 t.p1 (by simp) (by simp)
+  by_cases c1 : t.p2 < t.p1 ∧ t.p2 < t.p3
+  · rw [if_pos c1, if_pos ⟨h21.2 c1.1, h23.2 c1.2⟩]
+  · rw [if_neg c1, if_neg (fun hc => c1 ⟨h21.1 hc.1, h23.1 hc.2⟩)]
+    by_cases c2 : t.p3 < t.p1
+    · rw [if_pos c2, if_pos (h31.2 c2)]
+    · rw [if_neg c2, if_neg (fun hc => c2 (h31.1 hc))]
+
+theorem asc_idxOf_lt (v : List Nat) (hasc : Asc v) (a b : Nat) (ha : a ∈ v) (hb : b ∈ v) :
+    (v.idxOf a < v.idxOf b ↔ a < b) := by
+  have hia : v.idxOf a < v.length := List.idxOf_lt_length_of_mem ha
+  have hib : v.idxOf b < v.length := List.idxOf_lt_length_of_mem hb
+  have ea : v[v.idxOf a] = a := List.getElem_idxOf hia
+  have eb : v[v.idxOf b] = b := List.getElem_idxOf hib
+  constructor
+  · intro h
+    have := List.pairwise_iff_getElem.1 hasc (v.idxOf a) (v.idxOf b) hia hib h
+    rwa [ea, eb] at this
+  · intro h
+    rcases Nat.lt_trichotomy (v.idxOf a) (v.idxOf b) with h1 | h1 | h1
+    · exact h1
+    · have : a = b := by rw [← ea, ← eb]; simp [h1]
+      omega
+    · have := List.pairwise_iff_getElem.1 hasc (v.idxOf b) (v.idxOf a) hib hia h1
+      rw [ea, eb] at this
+      omega
+
+theorem asc_getElem_lt (v : List Nat) (hasc : Asc v) (i j : Nat) (hi : i < v.length) (hj : j < v.length) :
+    (v[i] < v[j] ↔ i < j) := by
+  constructor
+  · intro h
+    rcases Nat.lt_trichotomy i j with h1 | h1 | h1
+    · exact h1
+    · subst h1; omega
+    · have := List.pairwise_iff_getElem.1 hasc j i hj hi h1
+      omega
+  · intro h
+    exact List.pairwise_iff_getElem.1 hasc i j hi hj h
+
+theorem castU16_ofNat (n : Nat) (h : n < 65536) : castU16 (n : Int) = n := by
+  unfold castU16
+  have : ((n : Int) % 65536) = (n : Int) := Int.emod_eq_of_lt (by omega) (by omega)
+  rw [this]; simp
+
+theorem mem_le_getLastD (v : List Nat) (hasc : Asc v) (p : Nat) (hp : p ∈ v) : p ≤ v.getLastD 0 := by
+  cases hl : v.getLast? with
+  | none =>
+    have : v = [] := List.getLast?_eq_none_iff.1 hl
+    subst this; cases hp
+  | some hi =>
+    have h := (asc_le_getLast v hi hasc hl).2 p hp
+    have : v.getLastD 0 = hi := by
+      rw [List.getLastD_eq_getLast?, hl]; rfl
+    omega
+
+/-- `GenerateMappedTrianglesFromTrueTrianglesAndVertexMap` on one triangle whose corners are in the map -/
+theorem mapTri_inv (v : List Nat) (hasc : Asc v) (hlen : v.length ≤ 65536) (t : Tri)
+    (h1 : t.p1 ∈ v) (h2 : t.p2 ∈ v) (h3 : t.p3 ∈ v) :
+    mapTri ((List.range (v.getLastD 0 + 1)).map fun x => ((v.idxOf x : Nat) : Int)) t = some (triMap v.idxOf t) := by
+  have hget : ∀ p, p ∈ v → ((List.range (v.getLastD 0 + 1)).map fun x => ((v.idxOf x : Nat) : Int))[p]? = some ((v.idxOf p : Nat) : Int) := by
+    intro p hp
+    have := mem_le_getLastD v hasc p hp
+    rw [List.getElem?_map, List.getElem?_range (by omega)]
+    rfl
+  have hlt : ∀ p, p ∈ v → v.idxOf p < 65536 := fun p hp => by
+    have := List.idxOf_lt_length_of_mem hp
+    omega
+  unfold mapTri
+  rw [hget _ h1, hget _ h2, hget _ h3]
+  simp only
+  rw [if_neg (by omega)]
+  simp only [castU16_ofNat _ (hlt _ h1), castU16_ofNat _ (hlt _ h2), castU16_ofNat _ (hlt _ h3), triMap]
+
+/-- `GenerateTrueTrianglesFromMappedTriangles` on one triangle of in-range map positions -/
+theorem mapTri_fwd (v : List Nat) (hv : ∀ x ∈ v, x < 65536) (t : Tri)
+    (h1 : t.p1 < v.length) (h2 : t.p2 < v.length) (h3 : t.p3 < v.length) :
+    mapTri (v.map fun (x : Nat) => (x : Int)) t = some (triMap (fun i => v.getD i 0) t) := by
+  have hget : ∀ i (hi : i < v.length), (v.map fun (x : Nat) => (x : Int))[i]? = some ((v[i] : Nat) : Int) := by
+    intro i hi
+    rw [List.getElem?_map, List.getElem?_eq_getElem hi]; rfl
+  have hgd : ∀ i (hi : i < v.length), v.getD i 0 = v[i] := fun i hi => by
+    simp [List.getD_eq_getElem?_getD, List.getElem?_eq_getElem hi]
+  unfold mapTri
+  rw [hget _ h1, hget _ h2, hget _ h3]
+  simp only
+  rw [if_neg (by omega)]
+  simp only [triMap, hgd _ h1, hgd _ h2, hgd _ h3,
+    castU16_ofNat _ (hv _ (List.getElem_mem h1)), castU16_ofNat _ (hv _ (List.getElem_mem h2)), castU16_ofNat _ (hv _ (List.getElem_mem h3))]
+
+theorem rot_corners (t : Tri) (p : Nat) : (p = (rot t).p1 ∨ p = (rot t).p2 ∨ p = (rot t).p3) ↔ (p = t.p1 ∨ p = t.p2 ∨ p = t.p3) := by
+  rcases rot_cyclic t with h | h | h <;> rw [h] <;> simp only <;> constructor <;> intro hh <;> omega
+
+/-- **mapped ↔ true are inverse.** For an ascending vertex map (16-bit vertex ids) and triangles whose corners are all in
+the map, converting true triangles to mapped ones and back gives the same triangles, each rotated to start at its
+smallest corner (the normal form `Triangle::rot` puts them in). -/
+theorem true_mapped_true (v : List Nat) (hasc : Asc v) (hv : ∀ x ∈ v, x < 65536) (hlen : v.length ≤ 65536) (tris : List Tri)
+    (hin : ∀ t ∈ tris, t.p1 ∈ v ∧ t.p2 ∈ v ∧ t.p3 ∈ v) :
+    trueFromMapped v (mappedFromTrue v tris) = tris.map rot := by
+  unfold trueFromMapped mappedFromTrue
+  simp only [applyMap_spec]
+  induction tris with
+  | nil => rfl
+  | cons t ts ih =>
+    have ht := hin t (by simp)
+    have ihh := ih (fun t' h' => hin t' (by simp [h']))
+    simp only [List.filterMap_cons, mapTri_inv v hasc hlen t ht.1 ht.2.1 ht.2.2, List.map_cons]
+    -- the mapped triangle: rotated index triple
+    have hidx : rot (triMap v.idxOf t) = triMap v.idxOf (rot t) := by
+      apply rot_triMap
+      intro a b ha hb
+      exact asc_idxOf_lt v hasc a b (by rcases ha with rfl | rfl | rfl <;> simp [ht]) (by rcases hb with rfl | rfl | rfl <;> simp [ht])
+    have hmem : ∀ p, (p = (rot t).p1 ∨ p = (rot t).p2 ∨ p = (rot t).p3) → p ∈ v := by
+      intro p hp
+      rcases (rot_corners t p).1 hp with rfl | rfl | rfl <;> simp [ht]
+    have hil : ∀ p, p ∈ v → v.idxOf p < v.length := fun p hp => List.idxOf_lt_length_of_mem hp
+    rw [hidx]
+    have hfwd := mapTri_fwd v hv (triMap v.idxOf (rot t)) (hil _ (hmem _ (by simp))) (hil _ (hmem _ (by simp))) (hil _ (hmem _ (by simp)))
+    simp only [List.filterMap_cons, hfwd, List.map_cons]
+    -- back through the map: the original (rotated) corners
+    have hback : triMap (fun i => v.getD i 0) (triMap v.idxOf (rot t)) = rot t := by
+      have hg : ∀ p, p ∈ v → v.getD (v.idxOf p) 0 = p := by
+        intro p hp
+        have hi := hil p hp
+        simp [List.getD_eq_getElem?_getD, List.getElem?_eq_getElem hi]
+      simp only [triMap, hg _ (hmem _ (Or.inl rfl)), hg _ (hmem _ (Or.inr (Or.inl rfl))), hg _ (hmem _ (Or.inr (Or.inr rfl)))]
+    rw [hback, rot_idem]
+    congr 1
 
 end Nifly.Mesh
